@@ -44,6 +44,33 @@ def lookup_state(body, bb, lookup="get"):
     return st
 
 
+def table_by_paths(b, outcome):
+    """{state: set of outcomes} over the enumerated paths of b; state from the lookup decisions taken on the path
+    (flags set by `matches!` are followed by the path enumeration)"""
+    out = {}
+    try:
+        paths = mir.enumerate_paths(b, limit=3000)
+    except mir.TooManyPaths:
+        return None
+    for p in paths:
+        st = None
+        for a in p.atoms:
+            if a.kind != "variant" or len(a.label) != 1:
+                continue
+            if not any(r.kind == "call" and r.name in (IS + "::get", IS + "::resolve") for r in a.subject):
+                continue
+            if a.label[0] == "None":
+                st = "absent"
+            elif a.label[0] == "Canonical":
+                st = "canonical"
+            elif a.label[0] == "Alias":
+                st = "alias"
+        o = outcome(p)
+        if o is not None:
+            out.setdefault(st, set()).add(o)
+    return out
+
+
 def tables_(P, chk):
     # insert_canonical
     b = P.body(IS + "::insert_canonical")
@@ -105,6 +132,21 @@ def tables_(P, chk):
         elif v == "Err":
             got[st] = "Err(" + mir.operand_shape(b, rv["fields"][0]["op"]).split("::")[-1].split("(")[0] + ")"
     want = {"absent": "insert", "canonical": "Err(AlreadyCanonical)", "alias": "noop"}
+    if got != want:
+        wsites = set(x for x, _, _ in writes)
+
+        def outcome(p):
+            sh = p.shape
+            if not sh or sh[0] != "assign" or sh[2].get("k") != "aggregate":
+                return "?%s" % (sh[0] if sh else None)
+            if sh[2].get("variant") == "Ok":
+                return "insert" if wsites & set(p.blocks) else "noop"
+            if sh[2].get("variant") == "Err":
+                return "Err(" + mir.operand_shape(b, sh[2]["fields"][0]["op"]).split("::")[-1].split("(")[0] + ")"
+            return "?"
+        g2 = table_by_paths(b, outcome)
+        if g2 is not None and {k: next(iter(v)) for k, v in g2.items() if len(v) == 1} == want and all(len(v) == 1 for v in g2.values()):
+            got = dict(want)
     chk.require(got == want, R_TAB, "insert_alias|absent/canonical/alias", b.loc(), "insert_alias behaves as %s" % got, str(want))
     # the alias is recorded for the canonical passed in
     chk.require(len(writes) >= 1, R_TAB, "insert_alias|writes the alias record", b.loc(), "insert_alias never writes a record", "%d write(s)" % len(writes))
